@@ -204,6 +204,7 @@ int main(int argc, char** argv)
     for (long r = 0; r < vrf::cfg.rounds; r++) {
         if (!vrf::want_round(r)) continue;
         if (vrf::cfg.mode == "seq") seq_round(r);
+        else if (r % 6 == 5) conc_round<UVec>(r);
         else if (r % 3 == 2) conc_round<int>(r);
         else conc_round<vrf::Cell>(r);
     }
